@@ -1,3 +1,4 @@
+import itertools
 import torch
 
 from ..domain import Domain, BoundaryDomain
@@ -192,16 +193,21 @@ class Rotate(Domain):
         # domain_bounds are in shape [x_min, x_max, y_min, y_max, ...]
         # both min and max have to be shifted by the same value
         domain_bounds = domain_bounds - translation_values
-        rotated_min = torch.matmul(rotation_matrix, domain_bounds[:, ::2].unsqueeze(-1))
-        rotated_min = rotated_min.squeeze(-1)
-        rotated_max = torch.matmul(
-            rotation_matrix, domain_bounds[:, 1::2].unsqueeze(-1)
-        )
-        rotated_max = rotated_max.squeeze(-1)
+        # the rotated box is spanned by the images of ALL corners of the original box
+        # (rotating only the min- and the max-corner misses e.g. a square rotated by 45 degrees)
+        mins, maxs = domain_bounds[:, ::2], domain_bounds[:, 1::2]
+        rotated_corners = []
+        for choice in itertools.product((0, 1), repeat=self.space.dim):
+            corner = torch.stack(
+                [maxs[:, i] if c else mins[:, i] for i, c in enumerate(choice)], dim=1
+            )
+            rotated = torch.matmul(rotation_matrix, corner.unsqueeze(-1)).squeeze(-1)
+            rotated_corners.append(rotated)
+        rotated_corners = torch.stack(rotated_corners)
         domain_bounds = torch.zeros(
-            (len(rotated_min), 2 * self.space.dim), device=device
+            (rotated_corners.shape[1], 2 * self.space.dim), device=device
         )
-        domain_bounds[:, ::2] = torch.min(rotated_min, rotated_max)
-        domain_bounds[:, 1::2] = torch.max(rotated_min, rotated_max)
+        domain_bounds[:, ::2] = torch.min(rotated_corners, dim=0).values
+        domain_bounds[:, 1::2] = torch.max(rotated_corners, dim=0).values
         domain_bounds = domain_bounds + translation_values
         return domain_bounds.squeeze(0)
